@@ -175,7 +175,9 @@ Finish(c, r, kind) ==
   LET e == MkEv(c, r, kind)
       h2 == HistStep(h, w, e) IN
   /\ Bounded(r.w, h2)
-  /\ w' = r.w /\ h' = h2 /\ ev' = [a |-> e.a, fn |-> e.fn, caller |-> e.caller, rcpt |-> e.rcpt, res |-> e.res] /\ cfg' = cfg
+  /\ w' = r.w /\ h' = h2 /\ cfg' = cfg
+  /\ ev' = [a |-> e.a, fn |-> e.fn, caller |-> e.caller, rcpt |-> e.rcpt, res |-> e.res, sh |-> e.sh, gas |-> e.gas, ct |-> e.ct, mid |-> e.mid,
+            args |-> [i \in 1..Len(e.args) |-> IF e.args[i].he THEN "" ELSE e.args[i].h]]   \* enough to replay the step on the real code
   /\ viol' = {n \in DirectNames \cap Checked : ~StepPred(n, w, e, r.w, h, r)}
 
 DoExec == \E c0 \in Calls, g \in GasPoints :
@@ -186,7 +188,7 @@ DoExec == \E c0 \in Calls, g \in GasPoints :
 \* the node offers a new gas schedule: a complete one is adopted, an incomplete one is ignored
 Sched1 == [x \in DOMAIN Sched0 |-> IF SubSeq(x, 1, 1) = "B" THEN 7 ELSE 2]
 DoSched == "sched" \in Fns /\ \E sc \in {Sched0, Sched1} : sc # w.sched /\ w' = [w EXCEPT !.sched = sc] /\ UNCHANGED <<cfg, h>> /\ viol' = {}
-              /\ ev' = [a |-> "sched", fn |-> "", caller |-> "", rcpt |-> "", res |-> "ok"]
+              /\ ev' = [a |-> "sched", fn |-> (IF sc = Sched0 THEN "0" ELSE "1"), caller |-> "", rcpt |-> "", res |-> "ok", sh |-> 0, gas |-> 0, ct |-> 0, mid |-> -1, args |-> <<>>]
 
 DoDeliver ==
   \E i \in 1..Len(w.msgs) : ~w.msgs[i].dead /\
@@ -195,7 +197,7 @@ DoDeliver ==
          c == [DeliverCall(m) EXCEPT !.snd = FALSE, !.dst = TRUE] @@ [a |-> "deliver", mid |-> m.id, dup |-> FALSE] IN
      ~r.unk /\ Finish(c, r, "deliver")
 
-Init == cfg = MCCfg /\ w = W0 /\ h = [supply |-> (TokF :> 2), maxn |-> <<>>, made |-> {}, flagged |-> {}] /\ ev = [a |-> "init", fn |-> "", caller |-> "", rcpt |-> "", res |-> "ok"] /\ viol = {}
+Init == cfg = MCCfg /\ w = W0 /\ h = [supply |-> (TokF :> 2), maxn |-> <<>>, made |-> {}, flagged |-> {}] /\ ev = [a |-> "init", fn |-> "", caller |-> "", rcpt |-> "", res |-> "ok", sh |-> 0, gas |-> 0, ct |-> 0, mid |-> -1, args |-> <<>>] /\ viol = {}
 Next == DoExec \/ DoDeliver \/ DoSched
 Spec == Init /\ [][Next]_vars
 
